@@ -157,6 +157,8 @@ REWRITES = {
     "map_json_string": (r"\.map\(JsonValue::String\)", r".map_json_string()", "`.map(JsonValue::String)` wraps every key in the String variant (an enum constructor used as a function value is outside Verus)"),
     "factory_call": (r"\(self\.build_extractor\)\(args\)", r"self.build_extractor.call(args)",
         "the field `build_extractor: fn(Vec<Rc<dyn Get>>) -> Rc<dyn Get>` is the opaque stand-in `Factory` (Verus rejects function pointer types); calling it is `call`"),
+    "to_string_fn": (r"(\w+)\.to_str\(\)\.map\(ToString::to_string\)", r"vopen::name_of(\1)",
+        "`path.to_str().map(ToString::to_string)` (a trait method used as a function value is outside Verus) is the stand-in name_of(path): the path as text when it is valid UTF-8"),
     "f64_op_assign": (r"\b(\w+) ([+*])= (\w+);", r"\1 = \1 \2 \3;",
         "`x += y` / `x *= y` on doubles is written `x = x + y` / `x = x * y` (the compound assignment on f64 crashes the installed Verus); same operation, same operands, same order"),
     "str_to_string": (r"\b(s|str|word|text)\.to_string\(\)", r"vstr::to_string_of(\1)", "&str::to_string() is a String with the same text"),
